@@ -54,6 +54,7 @@ REACTIONS = {
     "syn-dpd": ({"spec": None}, True),
     "syn-can": ({"spec": None}, False),
     "syn-mixed": ({"spec": None}, False),
+    "syn-fail": ({"spec": None}, False),
 }
 
 
@@ -93,6 +94,11 @@ def _load_reaction(key):
         r = R.load_catalogue(src["catalogue"])
     elif key == "four":
         r = R.build_reaction(_four_spec())
+    elif key == "syn-fail":
+        # small reaction for histories in which a formulate() FAILS (invalid stable id) and the
+        # builder is used again afterwards
+        r = R.build_reaction(R.three_body_spec(1, 0, 0, 0, [(0, R.P("R1", 1, 1.2, -1), True, True)],
+                                               parities=(-1, -1, -1, -1)))
     elif key == "syn-zero":
         # R(J=0) -> C(1) D(0): only lambda_C = 0 has transitions; axis-angle alignment sums
         # over -1, 0, 1, so whether vanishing amplitudes exist depends on the alignment
@@ -131,6 +137,12 @@ def alphabet(key: str, tier: str) -> list[list]:
             ["assign", 0, "bwff"],
             ["formulate"],
         ]
+    if key == "syn-fail":
+        return [
+            ["set", "stable_final_state_ids", "invalid"], ["set", "stable_final_state_ids", "none"],
+            ["set", "use_helicity_couplings", True], ["assign", 0, "bw"], ["assign", 0, "none"],
+            ["formulate"],
+        ]
     if key == "syn-mixed":
         # resonance 0 = Rh (half-integer spin), 1 = Ri; "bwff" on Rh makes formulate() raise
         # the documented ValueError, which is an observable outcome like any other
@@ -167,6 +179,8 @@ def bases(key: str) -> list[list]:
     out = [[]]
     if key == "syn-can":
         return [[], [["flag", "insert_child_helicities", True]]]
+    if key == "syn-fail":
+        return [[], [["assign", 0, "bw"]]]
     if REACTIONS[key][1]:
         out.append([["set", "spin_alignment", "dpd1"]])
     elif key in {"ksp"}:
@@ -193,6 +207,17 @@ def histories(key: str, tier: str, two_builders: bool, deep: bool = False) -> li
                 out.append([*prefix, [0, "formulate"]])
         return out
     out = [[[0, "formulate"]]]
+    if key == "syn-fail":
+        # every history of depth <= 5 in which the failing call (invalid id, formulate) occurs
+        bad_pair = (["set", "stable_final_state_ids", "invalid"], ["formulate"])
+        for d in range(2, 5):
+            for prefix in itertools.product(ops, repeat=d):
+                if not any(prefix[i:i + 2] == bad_pair for i in range(d - 1)):
+                    continue
+                if prefix[-1] == ["formulate"] or prefix.count(["formulate"]) > 2:
+                    continue
+                out.append([*[[0, *o] for o in prefix], [0, "formulate"]])
+        return out
     if key == "syn-mixed":
         depth = 4
     for d in range(1, depth):
@@ -209,7 +234,7 @@ CHUNK_SIZE = 40
 
 def cases(tier, seed):
     out = []
-    keys = ["ksp-dpd", "ksp", "omega", "four", "syn-zero", "syn-can", "syn-mixed"] if tier == "quick" \
+    keys = ["ksp-dpd", "ksp", "omega", "four", "syn-zero", "syn-can", "syn-mixed", "syn-fail"] if tier == "quick" \
         else [k for k in REACTIONS if k != "kspfull-dpd"]
     # two builders on two DIFFERENT reactions (same particles, restricted helicity set)
     for base in bases("kspfull-dpd"):
@@ -315,7 +340,7 @@ def apply_op(builder, reaction, op, state):
         field, value = op[1], op[2]
         if field == "stable_final_state_ids":
             ids = sorted(reaction.final_state)
-            value = {"all": ids, "first": [ids[0]], "none": None}[value]
+            value = {"all": ids, "first": [ids[0]], "none": None, "invalid": [max(ids) + 5]}[value]
             builder.config.stable_final_state_ids = value
             state["stable"] = value
         elif field == "spin_alignment":
@@ -400,6 +425,9 @@ def formulate_digest(builder) -> dict:
         if DOCUMENTED_ERROR not in str(exc):
             raise
         return {"raised": f"ValueError: {exc}"}
+    except KeyError as exc:
+        # an id in stable_final_state_ids that the reaction does not have
+        return {"raised": f"KeyError: {exc}"}
     return model_digest(model)
 
 
